@@ -180,12 +180,17 @@ def b64Go (pad : Bool) (n : Nat) : Bytes → Nat → B64St → Except Nat Bytes
 /-- `Encoding.DecodeString`. -/
 def b64Decode (pad : Bool) (s : Bytes) : Except Nat Bytes := b64Go pad s.length s 0 (.q [])
 
+/-- Padding flags of the encodings the token code names (tied to the source in `Gonuts/Tie/Token.lean`):
+    `base64.URLEncoding` pads with `=`, `base64.RawURLEncoding` does not. -/
+abbrev padURLEncoding : Bool := true
+abbrev padRawURLEncoding : Bool := false
+
 /-- The two attempts of `DecodeTokenV3/V4`: `base64.URLEncoding`, on error `base64.RawURLEncoding`
     (whose error is the one reported). -/
 def b64Stage (s : Bytes) : Except Nat Bytes :=
-  match b64Decode true s with
+  match b64Decode padURLEncoding s with
   | .ok b => .ok b
-  | .error _ => b64Decode false s
+  | .error _ => b64Decode padRawURLEncoding s
 
 /-! ## abstract syntax (field order = Go struct order) -/
 
@@ -416,21 +421,26 @@ structure Codec where
   encCbor : TokenV4 → Option Bytes
   decCbor : Bytes → Option TokenV4
 
-/-- `"cashuA"` / `"cashuB"` as bytes. -/
-def prefixV3 : Bytes := strBytes "cashuA"
-def prefixV4 : Bytes := strBytes "cashuB"
+/-- The version prefixes `"cashuA"` / `"cashuB"` (string literals of `DecodeTokenV3/V4` and `Serialize`). -/
+abbrev prefixStrV3 : String := "cashuA"
+abbrev prefixStrV4 : String := "cashuB"
+def prefixV3 : Bytes := strBytes prefixStrV3
+def prefixV4 : Bytes := strBytes prefixStrV4
+
+/-- The constant of the slice expressions `tokenstr[:6]` / `tokenstr[6:]`. -/
+abbrev cut : Nat := 6
 
 /-- `TokenV3.Serialize()`: `"cashuA" + base64.URLEncoding.EncodeToString(jsonBytes)`; `none` = `json.Marshal` error. -/
 def serializeV3 (cod : Codec) (t : TokenV3) : Option String :=
   match cod.encJson t with
   | none => none
-  | some js => some ("cashuA" ++ asciiStr (b64Encode true js))
+  | some js => some (prefixStrV3 ++ asciiStr (b64Encode padURLEncoding js))
 
 /-- `TokenV4.Serialize()`: `"cashuB" + base64.RawURLEncoding.EncodeToString(cborData)`. -/
 def serializeV4 (cod : Codec) (t : TokenV4) : Option String :=
   match cod.encCbor t with
   | none => none
-  | some cb => some ("cashuB" ++ asciiStr (b64Encode false cb))
+  | some cb => some (prefixStrV4 ++ asciiStr (b64Encode padRawURLEncoding cb))
 
 /-- The part of `DecodeTokenV3` / `DecodeTokenV4` before `Unmarshal` (the two functions differ only in
     the prefix literal and the sentinel error): `prefixVersion := tokenstr[:6]`, `base64Token :=
@@ -438,10 +448,10 @@ def serializeV4 (cod : Codec) (t : TokenV4) : Option String :=
     bytes; there is no length check — then the prefix comparison and the two base64 attempts.
     The result is the byte string handed to `json.Unmarshal` / `cbor.Unmarshal`. -/
 def front (pfx : Bytes) (bad : DecErr) (s : Bytes) : Out DecErr Bytes :=
-  if s.length < 6 then .panic (.sliceBounds 6 s.length)
+  if s.length < cut then .panic (.sliceBounds cut s.length)
   else
-    let prefixVersion := s.take 6
-    let base64Token := s.drop 6
+    let prefixVersion := s.take cut
+    let base64Token := s.drop cut
     if prefixVersion ≠ pfx then .err bad
     else
       match b64Stage base64Token with
